@@ -140,6 +140,151 @@ theorem clauseShape_typed {c s0 st : Node} {ss : List Node} (h : clauseShape c =
     · cases h
   · cases h
 
+/-! ### clauses that BIND the error: `except e`, `except as e`, `except "T", … as e` -/
+
+/-- the variable a binder child names: `as v` → v, an identifier → itself (read off the tree) -/
+def varOf (c0 : Node) : Option (List Nat) :=
+  if c0.name = "as" then
+    match c0.children with
+    | [some av] => av.tok.map (·.val)
+    | _ => none
+  else c0.tok.map (·.val)
+
+/-- the evaluator's computation of that variable -/
+def varM (c0 : Node) : M (List Nat) :=
+  if c0.name == "as" then do pure (← tokOf (← child c0 0)).val else do pure (← tokOf c0).val
+
+theorem varM_of_varOf {c0 : Node} {v : List Nat} (h : varOf c0 = some v) : varM c0 = pure v := by
+  unfold varOf at h
+  unfold varM
+  by_cases ha : c0.name = "as"
+  · simp only [ha, if_true] at h
+    split at h
+    · rename_i av hav
+      cases ht : av.tok with
+      | none => simp [ht] at h
+      | some t =>
+        simp only [ht, Option.map_some, Option.some.injEq] at h
+        subst h
+        simp [ha, child, hav, tokOf, ht]
+    · cases h
+  · have ha' : (c0.name == "as") = false := by simpa using ha
+    simp only [ha, if_false] at h
+    cases ht : c0.tok with
+    | none => simp [ht] at h
+    | some t =>
+      simp only [ht, Option.map_some, Option.some.injEq] at h
+      subst h
+      simp [ha', tokOf, ht]
+
+/-- the error-binding shapes -/
+inductive BindShape where
+  | bind (c0 st : Node) (var : List Nat)                                          -- `except e { st }` / `except as e { st }`
+  | typedAs (s0 : Node) (ss : List Node) (a av : Node) (t : Ecal.Lex.Tok) (st : Node)   -- `except "T0", … as e { st }`
+  | typedIdent (s0 : Node) (ss : List Node) (a st : Node)                         -- `except "T0", … e { st }`: nothing bound
+  | none
+
+def bindingShape (c : Node) : BindShape :=
+  match allSome c.children with
+  | some [c0, st] =>
+    if c0.name = "string" then .none
+    else match varOf c0 with
+      | some v => .bind c0 st v
+      | none => .none
+  | some kids =>
+    match kids.takeWhile (·.name == "string"), kids.dropWhile (·.name == "string") with
+    | s0 :: ss, [a, st] =>
+      if a.name = "as" ∧ st.name = "statements" then
+        match a.children with
+        | [some av] =>
+          (match av.tok with
+           | some t => .typedAs s0 ss a av t st
+           | none => .none)
+        | _ => .none
+      else if a.name = "identifier" ∧ st.name = "statements" then .typedIdent s0 ss a st
+      else .none
+    | _, _ => .none
+  | none => .none
+
+theorem bindingShape_bind {c c0 st : Node} {v : List Nat} (h : bindingShape c = .bind c0 st v) :
+    c.children = [some c0, some st] ∧ c0.name ≠ "string" ∧ varM c0 = pure v := by
+  unfold bindingShape at h
+  split at h
+  · rename_i c0' st' hk
+    split at h
+    · cases h
+    · rename_i hns
+      split at h
+      · rename_i v' hv
+        cases h
+        exact ⟨by simpa using allSome_eq _ _ hk, hns, varM_of_varOf hv⟩
+      · cases h
+  · repeat' split at h
+    all_goals cases h
+  · cases h
+
+theorem bindingShape_typedAs {c s0 a av st : Node} {ss : List Node} {t : Ecal.Lex.Tok}
+    (h : bindingShape c = .typedAs s0 ss a av t st) :
+    c.children = ((s0 :: ss) ++ [a, st]).map some ∧ (∀ x ∈ s0 :: ss, x.name = "string") ∧ a.name = "as" ∧
+      a.children = [some av] ∧ av.tok = some t ∧ st.name = "statements" := by
+  unfold bindingShape at h
+  split at h
+  · repeat' split at h
+    all_goals cases h
+  · rename_i _ kids _ hk
+    split at h
+    · rename_i s0' ss' a' st' htw hdw
+      split at h
+      · rename_i hcond
+        split at h
+        · rename_i av' hav
+          split at h
+          · rename_i t' ht
+            cases h
+            have hkids : kids = (s0 :: ss) ++ [a, st] := by
+              rw [← List.takeWhile_append_dropWhile (p := (·.name == "string")) (l := kids), htw, hdw]
+            refine ⟨by rw [allSome_eq _ _ hk, hkids], ?_, hcond.1, hav, ht, hcond.2⟩
+            intro x hx
+            have : x ∈ kids.takeWhile (·.name == "string") := by rw [htw]; exact hx
+            simpa using mem_takeWhile_p _ _ _ this
+          · cases h
+        · cases h
+      · split at h <;> cases h
+    · cases h
+  · cases h
+
+theorem bindingShape_typedIdent {c s0 a st : Node} {ss : List Node} (h : bindingShape c = .typedIdent s0 ss a st) :
+    c.children = ((s0 :: ss) ++ [a, st]).map some ∧ (∀ x ∈ s0 :: ss, x.name = "string") ∧ a.name = "identifier" ∧
+      st.name = "statements" := by
+  unfold bindingShape at h
+  split at h
+  · repeat' split at h
+    all_goals cases h
+  · rename_i _ kids _ hk
+    split at h
+    · rename_i s0' ss' a' st' htw hdw
+      split at h
+      · repeat' split at h
+        all_goals cases h
+      · split at h
+        · rename_i hcond
+          cases h
+          have hkids : kids = (s0 :: ss) ++ [a, st] := by
+            rw [← List.takeWhile_append_dropWhile (p := (·.name == "string")) (l := kids), htw, hdw]
+          refine ⟨by rw [allSome_eq _ _ hk, hkids], ?_, hcond.1, hcond.2⟩
+          intro x hx
+          have : x ∈ kids.takeWhile (·.name == "string") := by rw [htw]; exact hx
+          simpa using mem_takeWhile_p _ _ _ this
+        · cases h
+    · cases h
+  · cases h
+
+/-- the block of a binding clause: in the clause's child scope the error object is bound to the variable
+    (a failure of that assignment is dropped), then the block runs -/
+def bindBody (g : Nat → Node → Stmt) (sc : Nat) (c st : Node) (var : List Nat) (e : Sig) : Stmt :=
+  .scoped (do newChild sc (← scopeName c)) (fun evs =>
+    .seq (.leaf (do bindErr evs var e; pure Val.null)) (g evs st))
+
 /-- the block of a handled clause: in the clause's child scope -/
 def clauseBody (g : Nat → Node → Stmt) (sc : Nat) (c st : Node) : Stmt :=
   .scoped (do newChild sc (← scopeName c)) (fun evs => g evs st)
@@ -153,7 +298,20 @@ def clauseOfNode (g : Nat → Node → Stmt) (f'' sc : Nat) (c : Node) (rest : C
         let b ← typedMatch (errType e) bytesToString ((s0 :: ss).map fun ch => eval f'' sc ch)
         pure (.bool b))
       (fun _ => clauseBody g sc c st) rest
-  | .other => .opaque (exceptHandler (f''+1) sc c) rest
+  | .other =>
+    match bindingShape c with
+    | .bind _ st var => .clause (fun _ => pure (.bool true)) (fun e => bindBody g sc c st var e) rest
+    | .typedAs s0 ss _ _ t st =>
+      .clause (fun e => do
+          let b ← typedMatch (errType e) bytesToString ((s0 :: ss).map fun ch => eval f'' sc ch)
+          pure (.bool b))
+        (fun e => bindBody g sc c st t.val e) rest
+    | .typedIdent s0 ss _ st =>
+      .clause (fun e => do
+          let b ← typedMatch (errType e) bytesToString ((s0 :: ss).map fun ch => eval f'' sc ch)
+          pure (.bool b))
+        (fun _ => clauseBody g sc c st) rest
+    | .none => .opaque (exceptHandler (f''+1) sc c) rest    -- anything unexpected: a whole handler
 
 /-- the except clauses of a try node, in source order -/
 def clauseStmts (g : Nat → Node → Stmt) (f'' sc : Nat) : List Node → Clauses
@@ -178,7 +336,33 @@ theorem handlers_clauseOfNode (g : Nat → Node → Stmt) (f'' sc : Nat) (c : No
     simp only [bind_assoc, pure_bind]
     congr 1; funext b
     cases b <;> simp
-  | other => simp [Impl.handlers]
+  | other =>
+    simp only []
+    cases hb : bindingShape c with
+    | bind c0 st var =>
+      obtain ⟨hc, hns, hvar⟩ := bindingShape_bind hb
+      simp only [Impl.handlers, bindBody, Impl.exec, hg]
+      congr 1; funext e
+      rw [exceptHandler_bind f'' sc c c0 st e hc hns]
+      have hvar' : (if c0.name == "as" then do pure (← tokOf (← child c0 0)).val else do pure (← tokOf c0).val) = pure var := hvar
+      simp only [hvar', pure_bind, bindErrThen_eq, bind_assoc]
+    | typedAs s0 ss a av t st =>
+      obtain ⟨hc, hstr, ha, hac, hat, hst⟩ := bindingShape_typedAs hb
+      simp only [Impl.handlers, bindBody, Impl.exec, hg]
+      congr 1; funext e
+      rw [exceptHandler_typed_as f'' sc c s0 a av st t ss e hc hstr ha hac hat hst]
+      simp only [bind_assoc, pure_bind, bindErrThen_eq]
+      congr 1; funext b
+      cases b <;> simp
+    | typedIdent s0 ss a st =>
+      obtain ⟨hc, hstr, ha, hst⟩ := bindingShape_typedIdent hb
+      simp only [Impl.handlers, clauseBody, Impl.exec, hg]
+      congr 1; funext e
+      rw [exceptHandler_typed_ident f'' sc c s0 a st ss e hc hstr ha hst]
+      simp only [bind_assoc, pure_bind]
+      congr 1; funext b
+      cases b <;> simp
+    | none => simp [Impl.handlers]
 
 theorem handlers_clauseStmts (g : Nat → Node → Stmt) (f'' sc : Nat)
     (hg : ∀ sc n, Impl.exec (g sc n) = eval f'' sc n) : ∀ clauses : List Node,
@@ -477,14 +661,51 @@ theorem spec_bare_clause (g : Nat → Node → Stmt) (f'' sc : Nat) (c st : Node
   rcases Spec.exec (clauseBody g sc c st) s with ⟨o, s2⟩
   cases o <;> rfl
 
+/-- **spec_binding_clause** (reference-semantics side): `except e { … }` / `except as e { … }` handles every error: in
+    the clause's scope the error object is bound to the variable (a failing assignment is dropped), then the block
+    runs; the statement continues normally (value null) unless binding or block end otherwise -/
+theorem spec_binding_clause (g : Nat → Node → Stmt) (f'' sc : Nat) (c c0 st : Node) (var : List Nat) (rest : Clauses)
+    (e : Sig) (s : St) (ho : clauseShape c = .other) (hb : bindingShape c = .bind c0 st var) :
+    Spec.handle (clauseOfNode g f'' sc c rest) e s =
+      (match Spec.exec (bindBody g sc c st var e) s with
+       | (.normal _, s2) => (.normal Val.null, s2)
+       | (o, s2) => (o, s2)) := by
+  unfold clauseOfNode
+  rw [ho]; simp only []; rw [hb]
+  simp only [Spec.handle, liftM, run_pure, toOutS, toOut_ok]
+  rcases Spec.exec (bindBody g sc c st var e) s with ⟨o, s2⟩
+  cases o <;> rfl
+
+/-- **spec_first_listed_clause_as**: `except "T0", … as v { … }` with plain literals handles `e` exactly when the
+    type of `e` is listed; it then binds the error object to `v` and runs the block; otherwise the error goes on,
+    unchanged and without effect, to the clauses after it -/
+theorem spec_first_listed_clause_as (g : Nat → Node → Stmt) (f sc : Nat) (c s0 a av st : Node) (ss : List Node)
+    (t : Ecal.Lex.Tok) (rest : Clauses) (e : Sig) (s : St)
+    (ho : clauseShape c = .other) (hb : bindingShape c = .typedAs s0 ss a av t st)
+    (hv : ∀ x ∈ s0 :: ss, PlainStr x (textOf x)) :
+    Spec.handle (clauseOfNode g (f+2) sc c rest) e s =
+      if ((s0 :: ss).map textOf).any (fun b => bytesToString b == errType e) then
+        (match Spec.exec (bindBody g sc c st t.val e) s with
+         | (.normal _, s2) => (.normal Val.null, s2)
+         | (o, s2) => (o, s2))
+      else Spec.handle rest e s := by
+  unfold clauseOfNode
+  rw [ho]; simp only []; rw [hb]
+  simp only [Spec.handle, liftM, map_eval_plain f sc _ hv, typedMatch_values, pure_bind, run_pure, toOutS, toOut_ok]
+  by_cases hl : ((s0 :: ss).map textOf).any (fun b => bytesToString b == errType e) = true
+  · simp only [hl, if_true]
+    rcases Spec.exec (bindBody g sc c st t.val e) s with ⟨o, s2⟩
+    cases o <;> rfl
+  · simp only [hl, Bool.false_eq_true, if_false]
+
 /-- **spec_refinement_partial** — the PROVED part of "eval refines the reference semantics": `eval_refines_spec`
     under the name that says it is partial. FULL statement not proved: the same with (1) calls inside a program
     read as `Stmt.call` BY `stmtOf` (a call node is still a leaf of `stmtOf`, because the function it calls is a value
     of the state, not of the tree; the connection is made at the node instead: `eval_user_call`,
     `eval_call_refines_spec`, `eval_call_never_ret` — hypotheses: the variable holds a declared function, arguments
-    and frame were built), (2) the clause shapes that BIND the error (`except e`, `except as e`, `"T" as e`,
-    `"T" e`: still `Clauses.opaque`; bare and typed clauses ARE `Clauses.clause` now — `spec_first_listed_clause`,
-    `spec_bare_clause`), (3) `for … in` loops (leaves). With
+    and frame were built), (2) `for … in` loops (leaves). ALL except-clause shapes the parser produces are
+    `Clauses.clause` now (bare, typed, `e`, `as e`, `"T" as e`, `"T" e`: `spec_bare_clause`, `spec_first_listed_clause`,
+    `spec_binding_clause`, `spec_first_listed_clause_as`); only a clause of none of these shapes stays a whole handler. With
     `stmtOf := leaf ∘ eval` the statement would be `rfl`: its content is exactly the node kinds statements, if,
     condition loop and try (block, otherwise, finally, clause order, type test of bare / typed clauses). -/
 theorem spec_refinement_partial (f sc : Nat) (n : Node) (s : St) :
